@@ -100,6 +100,8 @@ class BaseSliver(ABC):
     def set_capacities(self, cap: Capacities) -> None:
         assert (cap is None or isinstance(cap, Capacities))
         assert(cap is None or isinstance(cap, Capacities))
+        # results of capacity arithmetic can be negative, what is stored cannot (it would not decode)
+        assert(cap is None or len(cap.negative_fields()) == 0)
         self.capacities = cap
 
     def get_capacities(self) -> Capacities:
@@ -144,6 +146,7 @@ class BaseSliver(ABC):
 
     def set_capacity_allocations(self, cap: Capacities) -> None:
         assert(cap is None or isinstance(cap, Capacities))
+        assert(cap is None or len(cap.negative_fields()) == 0)
         self.capacity_allocations = cap
 
     def get_capacity_allocations(self) -> Capacities:
